@@ -364,7 +364,7 @@ def iter_sink(ctx, args, st):
                         yield s2, 'ret', {'all': Bool(True), 'any': Bool(False), 'find': NONE, 'position': NONE, 'find_map': NONE}[op]; continue
                     if isinstance(item, tuple): yield s2, 'panic', item[1]; continue
                     arg = s2.ref(item) if op == 'find' else item
-                    for s3, kind, val in ex.call_value(f, [arg], s2, ctx.depth):
+                    for s3, kind, val in ex.call_value(f, [arg], s2, ctx.depth, ctx.callee):
                         if kind != 'ret': yield s3, kind, val; continue
                         if op == 'find_map':
                             if val.variant == 'Some': yield s3, 'ret', val
@@ -391,7 +391,7 @@ def iter_sink(ctx, args, st):
                 for s2, item, d2 in step(ex, s, d, ctx.depth):
                     if item is None: yield s2, 'ret', UNIT; continue
                     if isinstance(item, tuple): yield s2, 'panic', item[1]; continue
-                    for s3, kind, val in ex.call_value(f, [item], s2, ctx.depth):
+                    for s3, kind, val in ex.call_value(f, [item], s2, ctx.depth, ctx.callee):
                         if kind != 'ret': yield s3, kind, val
                         else: yield from go(s3, d2, fuel - 1)
             yield from go(st, it.data, 64); return
@@ -402,7 +402,7 @@ def iter_sink(ctx, args, st):
                 for s2, item, d2 in step(ex, s, d, ctx.depth):
                     if item is None: yield s2, 'ret', acc; continue
                     if isinstance(item, tuple): yield s2, 'panic', item[1]; continue
-                    for s3, kind, val in ex.call_value(f, [acc, item], s2, ctx.depth):
+                    for s3, kind, val in ex.call_value(f, [acc, item], s2, ctx.depth, ctx.callee):
                         if kind != 'ret': yield s3, kind, val
                         else: yield from go(s3, d2, val, fuel - 1)
             yield from go(st, it.data, init, 64); return
